@@ -13,7 +13,7 @@ func init() {
 	extraFactFns = append(extraFactFns, emitDtlcpTx)
 	extraHashed["dtlcp"] = append(extraHashed["dtlcp"],
 		"Conn.maxPayloadSizeForWrite", "halfConn.encrypt", "halfConn.explicitNonceLen", "Conn.writeRecordLocked",
-		"Conn.write", "Conn.flush", "Conn.Write", "Conn.WriteTo")
+		"Conn.write", "Conn.flush", "Conn.Write", "Conn.WriteTo", "Conn.readDatagram")
 }
 
 // typeSwitchClauses returns, for the first type switch in fn, case type -> printed statements
@@ -221,4 +221,33 @@ func emitDtlcpTx(e *emitter, p *pkg) {
 		})
 	}
 	strFact("txWriteCall", wcall, wcall != "")
+
+	// receive side: the datagram buffer of readDatagram. Its size must be a package constant
+	// (not a function of the local, send-side PMTU) that holds the largest record a peer may send.
+	bufExpr, bufSize, okBuf := "", int64(0), false
+	if fd := p.funcs["Conn.readDatagram"]; fd != nil {
+		ast.Inspect(fd.Body, func(n ast.Node) bool {
+			as, ok := n.(*ast.AssignStmt)
+			if !ok || len(as.Lhs) != 1 || len(as.Rhs) != 1 || p.src(as.Lhs[0]) != "buf" || bufExpr != "" {
+				return true
+			}
+			if call, ok := as.Rhs[0].(*ast.CallExpr); ok && p.src(call.Fun) == "make" && len(call.Args) == 2 {
+				bufExpr = p.src(call.Args[1])
+				bufSize, okBuf = p.evalInt(call.Args[1], 0, 0)
+			}
+			return true
+		})
+	}
+	strFact("rxDatagramBuf", bufExpr, bufExpr != "")
+	e.nat("rxDatagramBufSize", bufSize, okBuf)
+	readInto := false
+	if fd := p.funcs["Conn.readDatagram"]; fd != nil {
+		ast.Inspect(fd.Body, func(n ast.Node) bool {
+			if c, ok := n.(*ast.CallExpr); ok && p.src(c) == "c.pconn.ReadFrom(buf)" {
+				readInto = true
+			}
+			return true
+		})
+	}
+	e.boolean("rxDatagramReadsIntoBuf", readInto)
 }
